@@ -249,6 +249,24 @@ func newEmptyBatchNode
 // ASSUMED (cache and store are not verified): loading a batch writes no leaf list
 func batchLoader.Load
   modifies allbut(leavesList)
+// SINGLE insertion, the push-down of a stored shortcut leaf: when a traversal step finds a
+// shortcut on its way it takes the leaf out of the batch - hash slot, key slot AND value slot -
+// and goes on from the same position with both leaves. A slot left behind is read as a stored
+// hash by a later step (getProvidedHash), and the digest then depends on whether the events came
+// one by one or as a bulk. (Frames are not claimed for the single insertion: with one leaf there
+// is no sibling list to protect, and the step does insert into the list it was handed.)
+func pruneToInsert.traverse
+  requires ops != nil
+  modifies everything
+func pruneToInsert.traverseThroughCache
+  requires ops != nil
+  modifies everything
+func pruneToInsert.traverseAfterCache
+  props C04
+  requires ops != nil
+  unchecked_panics
+  modifies everything
+  at pruneToInsert.traverseAfterCache assert C04/pushed-down-shortcut-leaves-no-trace: arg0.Height == pos.Height ==> len(arg2.batch[arg3]) == 0 && len(arg2.batch[2 * arg3 + 1]) == 0 && len(arg2.batch[2 * arg3 + 2]) == 0
 func pruneToInsertBulk.traverse
   props C04
   requires ops != nil
@@ -264,4 +282,5 @@ func pruneToInsertBulk.traverseAfterCache
   requires ops != nil
   unchecked_panics
   modifies allbut(leavesList)
+  at pruneToInsertBulk.traverseAfterCache assert C04/pushed-down-shortcut-leaves-no-trace: arg0.Height == pos.Height ==> len(arg2.batch[arg3]) == 0 && len(arg2.batch[2 * arg3 + 1]) == 0 && len(arg2.batch[2 * arg3 + 2]) == 0
 @*/
